@@ -38,6 +38,7 @@ RULE = ("lib: random JSON documents (depth <= 5; Unicode, escaped and surrogate-
         "invalid values, wrong types, missing default project, --visualize-deps). init: random documents x flag sets "
         "incl. invalid library / missing project / missing or unparseable target. "
         "path shapes: 11 shapes of a project path that names nothing (plain missing, trailing slash, through a regular file, component longer than NAME_MAX, symlink loop and through it, dangling symlink and through it, empty string, missing below a project) and 7 spellings of something that exists (a file for a directory, ., trailing slash, symlink to a project with and without slash, a directory without commands) x every place a project path can be given: generate -p / projectPath in tauri.conf.json / both ways round, generate -c project_path / -p over it, init with an explicit tauri.conf.json target here and elsewhere, init -o <standalone file> (to be created, existing with and without --force); refused runs are judged on a byte snapshot of the whole sandbox; the same shapes as settings of the library entry points validate / from_tauri_config / from_file (15 % of the lib and file-roundtrip cases); 250 random init -o <standalone file> runs. "
+        "history: output directories filled by an earlier successful run (.typecache and all generated files present; bindings of a fourth project) in 35 % of the random generate / generate -c / init / init -o cases, and small-scope exhaustive `warm-rejected` streams: every rejection reason (library or project path invalid by flag, by file, by default; -c file missing / malformed / invalid; init target missing / unwritable / existing without --force) x every flag with side effects of its own (--force, --visualize-deps, --verbose, all, -o elsewhere) on generate, generate -c, init, init -o; a refused run must leave the whole sandbox byte-identical, dotfiles included, with unchanged modification times (lstat of every entry). "
         "file: 600 settings values through save_to_file/from_file, 600 random standalone documents (right and wrong types, unknown keys) through from_file; "
         "generate -c: all 2^5 flag subsets x 12 standalone-file variants (each setting absent / non-default / equal to its default, all), corpus incl. the seeded force case, random worlds (missing / malformed / invalid file, tauri.conf.json present as a decoy); "
         "build script: BuildSystem::generate_at_build_time() through a driver, 8 fixed + 150 random combinations of tauri.conf.json and typegen.json, force observed through a marker that a non-forced second run must leave alone. "
@@ -539,8 +540,10 @@ PROJ_SRC = {
     "src-tauri": "#[tauri::command]\npub fn cmd_default(x: i32) -> i32 { x }\n",
     "projA": "#[tauri::command]\npub fn cmd_a(x: i32) -> i32 { x }\n",
     "projB": "#[tauri::command]\npub fn cmd_b(x: i32) -> i32 { x }\n",
+    # only ever used to fill output directories before the run under observation (world["warm"])
+    "primeP": "#[tauri::command]\npub fn cmd_prime(x: i32) -> i32 { x }\n",
 }
-CMD_PROJECT = {"cmdDefault": "src-tauri", "cmdA": "projA", "cmdB": "projB"}
+CMD_PROJECT = {"cmdDefault": "src-tauri", "cmdA": "projA", "cmdB": "projB", "cmdPrime": "primeP"}
 
 
 def norm(p):
@@ -554,7 +557,10 @@ def world_fs(w, reading):
         fs.append(["src-tauri", ["proj"]])
     elif w["src_tauri"] == "dir":
         fs.append(["src-tauri", ["dir"]])
-    fs += [["projA", ["proj"]], ["projB", ["proj"]], ["empty", ["dir"]]]
+    fs += [["projA", ["proj"]], ["projB", ["proj"]], ["empty", ["dir"]], ["primeP", ["proj"]]]
+    # output directories filled by an earlier successful run (history): bindings of primeP
+    for d, lib, viz in w.get("warm", []):
+        fs.append([norm(d), ["out", "primeP", lib, bool(viz)]])
     # other spellings of things that exist, and the odd entries of materialise()
     fs += [["projA/", ["proj"]], ["linkA", ["proj"]], ["linkA/", ["proj"]], [".", ["proj"]], ["empty/", ["dir"]],
            ["notes.txt", ["doc"]]]
@@ -585,6 +591,12 @@ def materialise(sb, w):
             os.symlink(target, sb.path("w", name))
         except FileExistsError:
             pass
+    # history: successful runs into these directories before the configuration files of the case exist
+    for d, lib, viz in w.get("warm", []):
+        rc, out = sb.cli(["generate", "-p", "./primeP", "-o", d, "-v", lib] + (["--visualize-deps"] if viz else []),
+                         cwd=sb.path("w"))
+        if rc != 0 or not os.path.exists(sb.path("w", norm(d), ".typecache")):
+            raise vlib.BuildError("priming run failed: %s" % out[-400:])
     for p, text in w["files"].items():
         sb.write(os.path.normpath(os.path.join("w", p)), text.encode("utf-8"))
 
@@ -601,14 +613,33 @@ def spelled(canonical, mentioned, table=ALIASES):
     return canonical
 
 
+def stamps(sb):
+    """{path: (mtime_ns, size, mode)} of every entry of the sandbox, dotfiles included (lstat)."""
+    out = {}
+    for r, ds, fs_ in os.walk(sb.root):
+        for n in ds + fs_:
+            p = os.path.join(r, n)
+            try:
+                st = os.lstat(p)
+                out[os.path.relpath(p, sb.root)] = (st.st_mtime_ns, st.st_size, st.st_mode)
+            except OSError:
+                out[os.path.relpath(p, sb.root)] = None
+    return out
+
+
 def observe_run(sb, argv, before, mentioned=(), out_mentioned=(), argv2=None):
     """Run the binary (twice when the first run generated something) and describe what it was seen to do."""
     cwd = sb.path("w")
+    st0 = stamps(sb)
     rc, out = sb.cli(argv, cwd=cwd)
+    st1 = stamps(sb)
     after = sb.snapshot(".", strip_timestamp=False)
     raw = {"exit": rc, "output": out[-1500:]}
     if rc != 0:
-        untouched = after == before
+        # untouched: same entries, same bytes (dotfiles included), same modification times
+        restamped = sorted(k for k in set(st0) | set(st1) if st0.get(k) != st1.get(k))
+        untouched = after == before and not restamped
+        raw["restamped"] = restamped[:10]
         changed = sorted(k for k in set(after) | set(before)
                          if (k in after) != (k in before) or after.get(k) != before.get(k))
         raw["changed"] = changed[:10]
@@ -638,7 +669,8 @@ def observe_run(sb, argv, before, mentioned=(), out_mentioned=(), argv2=None):
     proj = spelled(proj, mentioned)
     verbose = "Parsing and caching all Rust files" in out
     logv = "Loading configuration" in out
-    viz = (outdir + "/dependency-graph.txt") in after
+    gk = outdir + "/dependency-graph.txt"
+    viz = gk in after and before.get(gk) != after[gk]
     rc2, out2 = sb.cli(argv2 or argv, cwd=cwd)
     forced = "bindings are up to date" not in out2
     raw["second"] = {"exit": rc2, "up_to_date": not forced}
@@ -779,6 +811,13 @@ GEN_CORPUS = [
 ]
 
 
+WARM_DIRS = ["./src/generated", "./outF", "./outC", "outF/deep", "outC/x/y", "./outT", "./gen", "gen/deep"]
+
+
+def random_warm(rng):
+    return [[d, rng.choice(["none", "zod"]), rng.random() < 0.3] for d in rng.sample(WARM_DIRS, rng.randint(1, 4))]
+
+
 def random_generate_case(rng):
     w = {"src_tauri": rng.choice(["proj", "proj", "proj", "proj", "proj", "dir", "absent"]), "files": {}}
     locs = ["tauri.conf.json", "src-tauri/tauri.conf.json", "../tauri.conf.json"]
@@ -815,6 +854,8 @@ def random_generate_case(rng):
           "output": rng.choice([None, None, "./outC", "outC/x/y"]),
           "lib": rng.choice([None, None, None, "zod", "none", "zod", "none", "foo", "ZOD"]),
           "verbose": rng.random() < 0.3, "viz": rng.random() < 0.2, "force": rng.random() < 0.3}
+    if rng.random() < 0.35:
+        w["warm"] = random_warm(rng)
     return {"world": w, "flags": fl}
 
 
@@ -958,6 +999,8 @@ def random_init_case(rng):
         w["files"]["tauri.conf.json"] = sec_text({"force": rng.random() < 0.5, "verbose": rng.random() < 0.5})
     if t.startswith("nope/"):
         w["files"].pop(t, None)      # the directory does not exist
+    if rng.random() < 0.35:
+        w["warm"] = random_warm(rng)
     return {"world": w, "iflags": il}
 
 
@@ -1159,6 +1202,8 @@ def random_generatec_case(rng):
           "output": rng.choice([None, None, "./outC"]),
           "lib": rng.choice([None, None, None, "zod", "none", "foo"]),
           "verbose": rng.random() < 0.3, "viz": rng.random() < 0.2, "force": rng.random() < 0.3}
+    if rng.random() < 0.35:
+        w["warm"] = random_warm(rng)
     return {"world": w, "flags": fl, "cfile": cfile}
 
 
@@ -1390,7 +1435,51 @@ def random_initfile_case(rng):
         w["files"] = {"cfg/other.txt": "x"}          # the directory exists, the target does not
     if rng.random() < 0.15:
         w["files"]["tauri.conf.json"] = sec_text({"force": rng.random() < 0.5, "verbose": rng.random() < 0.5})
+    if rng.random() < 0.35:
+        w["warm"] = random_warm(rng)
     return {"world": w, "iflags": il, "force": rng.random() < 0.4}
+
+
+# ------------------------------------------------------------------ refused runs against generated output directories
+
+def warm_rejected_cases():
+    """Every rejection reason x every flag with side effects of its own x output directories that a
+    successful run has filled before (.typecache and all generated files present), on every entry point."""
+    gen, genc, init, initfile = [], [], [], []
+    side = [{}, {"force": True}, {"viz": True}, {"verbose": True}, {"force": True, "viz": True, "verbose": True}]
+    warm_all = [["./src/generated", "none", False], ["./outC", "zod", True], ["./outF", "none", True]]
+    doc = '{"productName":"demo","plugins":{"shell":{"open":true},"typegen":{"projectPath":"./src-tauri","outputPath":"./outF"}}}'
+
+    def w(files=None, st="proj", warm=warm_all):
+        return {"src_tauri": st, "files": dict(files or {}), "warm": [list(x) for x in warm]}
+    for fx in side:
+        for out in (None, "./outC"):
+            base = dict(NOFLAGS, output=out, **fx)
+            gen.append({"world": w(), "flags": dict(base, lib="yup")})
+            gen.append({"world": w(), "flags": dict(base, project="./no-such-dir")})
+            gen.append({"world": w(), "flags": dict(base, project="notes.txt/src")})
+            gen.append({"world": w({"tauri.conf.json": sec_text({"validationLibrary": "yup", "outputPath": "./outF"})}), "flags": dict(base)})
+            gen.append({"world": w({"tauri.conf.json": sec_text({"projectPath": "./nope", "outputPath": "./outF", "force": True})}), "flags": dict(base)})
+            gen.append({"world": w(st="absent"), "flags": dict(base)})
+            for files, reason_flags in (({}, {}),                                        # -c file missing
+                                        ({"typegen.json": '{"verbose":"yes"}'}, {}),      # malformed
+                                        ({"typegen.json": flat_text({"validation_library": "yup", "output_path": "./outF"})}, {}),
+                                        ({"typegen.json": flat_text({"output_path": "./outF", "force": True})}, {"project": "loop/x"})):
+                genc.append({"world": w(files), "flags": dict(base, **reason_flags), "cfile": "typegen.json"})
+    wi = [["./gen", "zod", True], ["./src/generated", "none", False]]
+    for fx in ({}, {"verbose": True}, {"viz": True}):
+        il = dict(IL0, generated="./gen", **fx)
+        init.append({"world": w({"./tauri.conf.json": doc}, warm=wi), "iflags": dict(il, output="./tauri.conf.json", lib="foo")})
+        init.append({"world": w({"./tauri.conf.json": doc}, warm=wi), "iflags": dict(il, output="./tauri.conf.json", project="./no-such-dir")})
+        init.append({"world": w({}, warm=wi), "iflags": dict(il, output="cfg/tauri.conf.json")})                       # target missing
+        init.append({"world": w({"./tauri.conf.json": '{"plugins":[1,2]}'}, warm=wi), "iflags": dict(il, output="./tauri.conf.json")})
+        init.append({"world": w({"./tauri.conf.json": doc}, warm=wi), "iflags": dict(dict(IL0, **fx), output="./tauri.conf.json", lib="foo")})
+        for force in (False, True):
+            initfile.append({"world": w({}, warm=wi), "iflags": dict(il, output="./typegen.json", lib="foo"), "force": force})
+            initfile.append({"world": w({"typegen.json": '{"old":true}'}, warm=wi),
+                             "iflags": dict(il, output="typegen.json", project="dangling/x"), "force": force})
+        initfile.append({"world": w({"typegen.json": '{"old":true}'}, warm=wi), "iflags": dict(il, output="typegen.json"), "force": False})
+    return gen, genc, init, initfile
 
 
 # ------------------------------------------------------------------ entry points
@@ -1450,7 +1539,7 @@ def run(rep):
     ex = exhaustive_generate_cases()
     rep.add("generate-exhaustive", eval_generate(ex), sample_count=1)
     lap("generate exhaustive done")
-    rnd = [random_generate_case(rng) for _ in range(1000 if quick else 8000)]
+    rnd = [random_generate_case(rng) for _ in range(700 if quick else 8000)]
     gouts = eval_generate(rnd)
     rep.add("generate-random", gouts)
     rep.extra["generate_distribution"] = {
@@ -1492,10 +1581,16 @@ def run(rep):
     rep.extra["path_shape_distribution"] = {"generate": len(pg), "generate_c": len(pc), "init": len(pi),
                                             "init_file": len(pf), "init_file_random": len(fr),
                                             "missing_shapes": len(MISSING_SHAPES), "existing_shapes": len(EXISTING_SHAPES)}
+    wg, wc, wi, wf = warm_rejected_cases()
+    rep.add("warm-rejected-generate", eval_generate(wg), sample_count=1)
+    rep.add("warm-rejected-generate-c", eval_generatec(wc), sample_count=1)
+    rep.add("warm-rejected-init", eval_init(wi), sample_count=1)
+    rep.add("warm-rejected-init-file", eval_initfile(wf), sample_count=1)
+    rep.extra["warm_rejected_distribution"] = {"generate": len(wg), "generate_c": len(wc), "init": len(wi), "init_file": len(wf)}
     lap("path shapes done")
     icorpus = [{"world": w, "iflags": il, "name": n} for n, w, il in INIT_CORPUS]
     rep.add("init-corpus", eval_init(icorpus), sample_count=1)
-    irnd = [random_init_case(rng) for _ in range(700 if quick else 6000)]
+    irnd = [random_init_case(rng) for _ in range(500 if quick else 6000)]
     iouts = eval_init(irnd)
     rep.add("init-random", iouts)
     lap("init done")
@@ -1520,9 +1615,9 @@ def run_one(rep, st, c, name=None):
             rep.add(name, eval_flatload([c], sb.root))
     elif "init-file" in st:
         rep.add(name, eval_initfile([c]))
-    elif st == "path-shapes-init" or st.startswith("init"):
+    elif st in ("path-shapes-init", "warm-rejected-init") or st.startswith("init"):
         rep.add(name, eval_init([c]))
-    elif st.startswith("generate-c") or st == "path-shapes-generate-c":
+    elif st.startswith("generate-c") or st in ("path-shapes-generate-c", "warm-rejected-generate-c"):
         rep.add(name, eval_generatec([c]))
     elif st.startswith("build"):
         rep.add(name, eval_build([c]))
